@@ -47,6 +47,13 @@ pub fn root(map: &BTreeMap<H, Vec<u8>>) -> H {
     sub(&items, 0)
 }
 
+/// Root over pre-hashed leaves: `items` = (key, leaf hash), strictly sorted by key.
+/// (Lets a monitor cache the leaf hashes of a model map between operations.)
+pub fn root_of_items(items: &[(H, H)]) -> H {
+    debug_assert!(items.windows(2).all(|w| w[0].0 < w[1].0));
+    sub(items, 0)
+}
+
 /// What a proof for `key` must contain according to the compact-tree definition:
 /// the side hashes from the root down to where the descent stops, and what it stops at.
 pub enum Terminal {
@@ -60,7 +67,12 @@ pub enum Terminal {
 /// Descend towards `key`; returns (side hashes root→down, terminal).
 pub fn descend(map: &BTreeMap<H, Vec<u8>>, key: &H) -> (Vec<H>, Terminal) {
     let items: Vec<(H, H)> = map.iter().map(|(k, v)| (*k, leaf_hash(k, v))).collect();
-    let mut cur: &[(H, H)] = &items;
+    descend_items(&items, key)
+}
+
+/// [`descend`] over pre-hashed leaves (key, leaf hash), strictly sorted by key.
+pub fn descend_items(items: &[(H, H)], key: &H) -> (Vec<H>, Terminal) {
+    let mut cur: &[(H, H)] = items;
     let mut depth = 0usize;
     let mut sides = Vec::new();
     loop {
